@@ -901,7 +901,9 @@ func (t *State) undoUnconfirmedTx(tx *pb.Transaction, txMap map[string]*pb.Trans
 		for _, childTxid := range childrenTxids {
 			childTx := txMap[childTxid]
 			// 先递归回滚依赖“我”的交易
-			t.undoUnconfirmedTx(childTx, txMap, txGraph, batch, undoDone, pundoList)
+			if childErr := t.undoUnconfirmedTx(childTx, txMap, txGraph, batch, undoDone, pundoList); childErr != nil {
+				return childErr
+			}
 		}
 	}
 
